@@ -104,7 +104,12 @@ def exec_HIST(t):
                     x.config.op_out = old_out
                 z6 = fxpmath.sub(x, y, out_like=z1) if len(out) % 2 else fxpmath.add(y, x, out_like=z1)
                 others = [z.status['inaccuracy'] for z in (z3, z4, z5, z6)]
-                if a != b or any(o_ != a for o_ in others):
+                # an object shaped like x (like=, the template pattern) is a new object: storing an exact in-range value into it raises
+                # nothing, whatever flags x has collected in its own history
+                w = Fxp(0 if size == 0 else np.zeros(size, dtype=int), like=x)
+                if flags(w) != '000':
+                    out.append(flags(x) + ':likeflags' + flags(w))
+                elif a != b or any(o_ != a for o_ in others):
                     out.append(flags(x) + ':zmismatch')
                 else:
                     out.append(flags(x) + ':' + ('z1' if a else 'z0'))
